@@ -44,6 +44,8 @@ where
     W: Write,
     S: Sample,
 {
+    let mut is_empty = true;
+
     for (i, result) in sample.iter(header).enumerate() {
         let (_, value) = result.map_err(WriteError::Io)?;
 
@@ -55,6 +57,13 @@ where
             Some(v) => write_value(writer, header, &v).map_err(WriteError::InvalidValue)?,
             None => writer.write_all(MISSING).map_err(WriteError::Io)?,
         }
+
+        is_empty = false;
+    }
+
+    // A sample without values is a missing sample. An empty column is not a valid sample.
+    if is_empty {
+        writer.write_all(MISSING).map_err(WriteError::Io)?;
     }
 
     Ok(())
